@@ -44,7 +44,7 @@ def run(ctx):
                         "the driver's mapping between hash terms and real hashes (harness/hashtree_driver.py: World.dec/enc)"]
     # ---- MC ----
     runs = ([(1, 3, 2, ALTS, '{"no", "diff"}'), (4, 4, 2, ALTS, '{"no"}'), (1, 8, 3, '{"g", "m"}', '{"no"}')] if q else
-            [(1, 4, 2, ALTS, '{"no", "same", "diff"}'), (5, 8, 2, ALTS, '{"no"}'), (1, 16, 6, '{"g", "m"}', '{"no"}'),
+            [(1, 4, 2, ALTS, '{"no", "same", "diff"}'), (5, 8, 2, ALTS, '{"no"}'), (1, 8, 8, '{"g", "m"}', '{"no"}'),
              (1, 4, 3, ALTS, '{"no"}')])
     for (a, b, calls, alts, dups) in runs:
         ctx.constants["MC_%d_%d_calls%d" % (a, b, calls)] = {"MinLeaves": a, "MaxLeaves": b, "MaxCalls": calls, "Alts": alts, "Dups": dups}
@@ -52,12 +52,15 @@ def run(ctx):
         ctx.mc("util/MCHashTree", mc_cfg(a, b, calls, alts, dups), name="MC hashtree n=%d..%d calls=%d" % (a, b, calls), timeout=3000,
                coverage=False)
     # ---- GEN + replay ----
-    gmax, full = (4, 2) if q else (8, 3)
+    gmax, full = (4, 2) if q else (8, 2)
     ctx.constants["GEN"] = {"MinLeaves": 1, "MaxLeaves": gmax, "FullPairsMax": full}
     r = ctx.mc("util/GenHashTree", gen_cfg(1, gmax, full, '{"no", "same", "diff"}', '{"no"}'), name="GEN hashtree", timeout=3000,
                coverage=False)
     cases = [json.loads(json.loads(p)) for p in r.prints if p.startswith('"{')]
     ncases = sum(1 for c in cases if "calls" in c)
+    # -coverage is off (see above); every printed case is one Call transition of GenHashTree
+    ctx.actions["GenHashTree.Call"] = ncases
+    ctx.actions["MCHashTree.Call"] = sum(r_["transitions"] for r_ in ctx.runs if r_.get("run", "").startswith("MC hashtree"))
     if ncases < 1000:
         raise RuntimeError("GEN produced only %d cases" % ncases)
     out = ctx.impl("harness/hashtree_driver.py", ["--mode", "replay"], input_obj=cases)
@@ -78,7 +81,7 @@ def run(ctx):
         ctx.report("case:%s" % m["kind"], "real hashtree vs Spec (n=%s): %s" % (m.get("n"), KEYS.get(m["kind"], m["kind"])),
                    replay={"kind": "gen-case", "case": m.get("case"), "call_index": m.get("call_index"), "real": m.get("detail")})
     # ---- TRACE ----
-    nt, ne = (30, 30) if q else (600, 50)
+    nt, ne = (30, 30) if q else (300, 50)
     traces = ctx.impl("harness/hashtree_driver.py", ["--mode", "trace", "--n", nt, "--events", ne, "--maxleaves", 64])
     for tr in traces:
         rej = any(e["ev"] == "set" and e["res"] != "ok" for e in tr["events"])
